@@ -96,6 +96,10 @@ var mutantCatalogue = map[string][]mutant{
 		{Name: "rollback forgets the replaced writes", File: "risc/app.go", Old: "\t\tfor _, overwritten := range ctx.transactionOverwritten[register] {\n\t\t\tif overwritten.sequenceID < sequenceID && (tu.sequenceID >= sequenceID || overwritten.sequenceID > tu.sequenceID) {\n\t\t\t\ttu = overwritten\n\t\t\t}\n\t\t}\n", New: ""},
 	},
 	"C07": {
+		{Name: "decode bus never connected", File: "proc/mvp6-1/cpu.go", Old: "\t\tm.decodeBus.Connect(cycle)\n", New: ""},
+		{Name: "not-taken branch leaves the flag raised", File: "proc/mvp7-1/bu.go", Old: "func (u *btbBranchUnit) notifyConditionalBranchNotTaken() {\n\tu.cu.notifyConditionalBranch()\n", New: "func (u *btbBranchUnit) notifyConditionalBranchNotTaken() {\n"},
+		{Name: "L3 lock kept after the access", File: "proc/mvp8-0/cc.go", Old: "\t\t\t\t\t\t\t\t\tcc.l3Lock = nil\n\t\t\t\t\t\t\t\t\tmu.Unlock()\n", New: "\t\t\t\t\t\t\t\t\tcc.l3Lock = nil\n"},
+		{Name: "released read lock stays in the table", File: "proc/mvp7-0/cc.go", Old: "\t\tcc.read.Reset()\n\t\tdelete(cc.rlockSems, getAlignedMemoryAddress(r.addrs))\n", New: "\t\tcc.read.Reset()\n"},
 		{Name: "inner loop swallows the error", File: "proc/mvp6-2/cpu.go", Old: "\t\t\t\t\t\t\treturn 0, resp.err\n", New: "\t\t\t\t\t\t\treturn 0, nil\n"},
 		{Name: "rem without zero test", File: "risc/opcodes.go", Old: "\tif rs2 == 0 {\n\t\treturn Execution{}, fmt.Errorf(\"division by zero\")\n\t}\n\tregister, value := IsRegisterChange(op.rd, rs1%rs2)", New: "\tregister, value := IsRegisterChange(op.rd, rs1%rs2)"},
 		{Name: "Cycles lacks a case", File: "risc/risc.go", Old: "\tcase Xori:\n\t\treturn 1\n\tdefault:", New: "\tdefault:"},
@@ -118,6 +122,10 @@ var mutantCatalogue = map[string][]mutant{
 		{Name: "queue dispatch forgets the branch flag", File: "proc/mvp7-1/cu.go", Old: "\t\t\tif runner.Runner.InstructionType().IsConditionalBranch() {\n\t\t\t\tu.pendingConditionalBranch = true\n\t\t\t}\n\t\t} else {\n\t\t\tu.skippedInCurrentCycle = append(u.skippedInCurrentCycle, runner)", New: "\t\t} else {\n\t\t\tu.skippedInCurrentCycle = append(u.skippedInCurrentCycle, runner)"},
 	},
 	"C03": {
+		{Name: "fetch redirect without a new epoch", File: "proc/mvp6-1/fu.go", Old: "func (u *fetchUnit) reset(pc int32, cleanPending bool) {\n\tu.ctx.IncSequenceID()\n", New: "func (u *fetchUnit) reset(pc int32, cleanPending bool) {\n"},
+		{Name: "flush restarts one instruction later", File: "proc/mvp6-1/cpu.go", Old: "\t\t\tm.flush(pc)\n", New: "\t\t\tm.flush(pc + 4)\n"},
+		{Name: "execute unit never arms the check", File: "proc/mvp6-1/eu.go", Old: "\tu.bu.assert(u.runner)\n", New: ""},
+		{Name: "inner flush keeps the younger limit", File: "proc/mvp7-1/cpu.go", Old: "\t\t\t\t\t\t\tsequenceID = resp.sequenceID\n\t\t\t\t\t\t\tflush = resp.flush", New: "\t\t\t\t\t\t\tflush = resp.flush"},
 		{Name: "flush forgets the execute bus", File: "proc/mvp6-1/cpu.go", Old: "\tm.executeBus.Clean()\n", New: ""},
 		{Name: "write unit drops the sequence filter", File: "proc/mvp6-2/wu.go", Old: "\tif r.sequenceID != -1 && execution.SequenceID > r.sequenceID {\n\t\treturn nil\n\t}\n", New: ""},
 		{Name: "commit and rollback swapped", File: "proc/mvp6-2/eu.go", Old: "\t\t\t\tu.bu.notifyConditionalBranchTaken(u.runner.SequenceID)\n\t\t\t} else {\n\t\t\t\t// Branch not taken (next PC)\n\t\t\t\tu.bu.notifyConditionalBranchNotTaken()", New: "\t\t\t\tu.bu.notifyConditionalBranchNotTaken()\n\t\t\t} else {\n\t\t\t\t// Branch not taken (next PC)\n\t\t\t\tu.bu.notifyConditionalBranchTaken(u.runner.SequenceID)"},
@@ -146,6 +154,8 @@ var mutantCatalogue = map[string][]mutant{
 		{Name: "pending write deleted outright", File: "risc/app.go", Old: "\t\tctx.PendingWriteRegisters[register]--\n\t\tif ctx.PendingWriteRegisters[register] <= 0 {\n\t\t\tdelete(ctx.PendingWriteRegisters, register)\n\t\t}\n\t}\n}\n\n// IsWriteDataHazard", New: "\t\tdelete(ctx.PendingWriteRegisters, register)\n\t}\n}\n\n// IsWriteDataHazard"},
 	},
 	"C05": {
+		{Name: "final write-back skips the evicted-from-L3 case", File: "proc/mvp8-0/cc.go", Old: "\t\t\tadditionalCycles += latency.MemoryAccess\n\t\t\tcc.mmu.writeToMemory(line.Boundary[0], line.Data)\n", New: "\t\t\tadditionalCycles += latency.MemoryAccess\n"},
+		{Name: "L3 miss snapshots the line at issue", File: "proc/mvp6-3/eu.go", Old: "\t\t\tu.Checkpoint(func(r euReq) euResp {\n\t\t\t\tif remainingCycles > 0 {\n\t\t\t\t\tlog.Infoi(r.ctx, \"EU\", u.runner.Runner.InstructionType(), u.runner.Pc, \"pending memory access %d\", remainingCycles)\n\t\t\t\t\tremainingCycles--\n\t\t\t\t\treturn euResp{}\n\t\t\t\t}\n\t\t\t\tline := u.mmu.fetchCacheLine(addrs[0])\n", New: "\t\t\tline := u.mmu.fetchCacheLine(addrs[0])\n\t\t\tu.Checkpoint(func(r euReq) euResp {\n\t\t\t\tif remainingCycles > 0 {\n\t\t\t\t\tlog.Infoi(r.ctx, \"EU\", u.runner.Runner.InstructionType(), u.runner.Pc, \"pending memory access %d\", remainingCycles)\n\t\t\t\t\tremainingCycles--\n\t\t\t\t\treturn euResp{}\n\t\t\t\t}\n"},
 		{Name: "no final write-back", File: "proc/mvp3/cpu.go", Old: "\tm.cycle += m.mmu.flush()\n", New: ""},
 		{Name: "L3 written back before L1", File: "proc/mvp8-0/cpu.go", Old: "\tfor _, cc := range m.cacheControllers {\n\t\tcycle += cc.writeBack()\n\t}\n\tcycle += m.l3WriteBack()\n", New: "\tcycle += m.l3WriteBack()\n\tfor _, cc := range m.cacheControllers {\n\t\tcycle += cc.writeBack()\n\t}\n"},
 		{Name: "MVP-7 pushes at the raw address", File: "proc/mvp7-0/cc.go", Old: "shouldEvict := cc.pushLineToL1(lineAddr, data)", New: "shouldEvict := cc.pushLineToL1(comp.AlignedAddress(r.addrs[0]), data)"},
@@ -156,6 +166,7 @@ var mutantCatalogue = map[string][]mutant{
 		{Name: "L3 dirty flag keyed by the L1 alignment", File: "proc/mvp8-0/cc.go", Old: "\tl3Addr := getL3AlignedMemoryAddress([]int32{int32(l1Addr)})\n\tcc.msi.l3WriteNotify(l3Addr)", New: "\tl3Addr := getL1AlignedMemoryAddress([]int32{int32(l1Addr)})\n\tcc.msi.l3WriteNotify(l3Addr)"},
 	},
 	"C06": {
+		{Name: "snoop write-back at the L3 line address", File: "proc/mvp8-0/cc.go", Old: "cc.mmu.writeToMemory(req.alignedAddr, memory)", New: "cc.mmu.writeToMemory(getL3AlignedMemoryAddress([]int32{int32(req.alignedAddr)}), memory)"},
 		{Name: "read@I ends Modified", File: "proc/mvp7-0/msi.go", Old: "m.setState(id, addrs, shared)", New: "m.setState(id, addrs, modified)"},
 		{Name: "read@I evicts the Modified holder", File: "proc/mvp7-1/msi.go", Old: "\t\tcase modified:\n\t\t\tpendings = append(pendings, m.sendNewMSICommand(e.id, alignedAddr, writeBack))\n\t\t}\n\t}\n\treturn pendings\n}\n\n// lock is", New: "\t\tcase modified:\n\t\t\tpendings = append(pendings, m.sendNewMSICommand(e.id, alignedAddr, evict))\n\t\t}\n\t}\n\treturn pendings\n}\n\n// lock is"},
 		{Name: "write-back removes before writing", File: "proc/mvp7-0/cc.go", Old: "\t\t\t\tcc.mmu.writeToMemory(req.alignedAddr, memory)\n\t\t\t\t_, evicted := cc.l1d.EvictCacheLine(req.alignedAddr)", New: "\t\t\t\t_, evicted := cc.l1d.EvictCacheLine(req.alignedAddr)\n\t\t\t\tcc.mmu.writeToMemory(req.alignedAddr, memory)"},
@@ -171,6 +182,8 @@ var mutantCatalogue = map[string][]mutant{
 		{Name: "latency read from a global counter", File: "proc/comp/cache.go", Old: "func (c *LRUCache) Lines() []Line {", New: "func (c *LRUCache) Skew() int {\n\treturn Delta % 2\n}\n\nfunc (c *LRUCache) Lines() []Line {"},
 	},
 	"C10": {
+		{Name: "write unit forgets the store", File: "proc/mvp6-1/wu.go", Old: "\t\t\tr.ctx.WriteMemory(u.memoryWrite.Execution)\n", New: ""},
+		{Name: "L3 miss snapshots the line at issue", File: "proc/mvp6-3/eu.go", Old: "\t\t\tu.Checkpoint(func(r euReq) euResp {\n\t\t\t\tif remainingCycles > 0 {\n\t\t\t\t\tlog.Infoi(r.ctx, \"EU\", u.runner.Runner.InstructionType(), u.runner.Pc, \"pending memory access %d\", remainingCycles)\n\t\t\t\t\tremainingCycles--\n\t\t\t\t\treturn euResp{}\n\t\t\t\t}\n\t\t\t\tline := u.mmu.fetchCacheLine(addrs[0])\n", New: "\t\t\tline := u.mmu.fetchCacheLine(addrs[0])\n\t\t\tu.Checkpoint(func(r euReq) euResp {\n\t\t\t\tif remainingCycles > 0 {\n\t\t\t\t\tlog.Infoi(r.ctx, \"EU\", u.runner.Runner.InstructionType(), u.runner.Pc, \"pending memory access %d\", remainingCycles)\n\t\t\t\t\tremainingCycles--\n\t\t\t\t\treturn euResp{}\n\t\t\t\t}\n"},
 		{Name: "store becomes visible after the latency only", File: "proc/mvp4/wu.go", Old: "\t\twu.pendingMemoryWrite = true\n\t\twu.cycles = latency.MemoryAccess\n\t\tctx.WriteMemory(execution.Execution)", New: "\t\tctx.WriteMemory(execution.Execution)"},
 		{Name: "write lock released as read lock", File: "proc/mvp7-0/msi.go", Old: "\t\treturn msiResponse{writeToL1: true}, func() {\n\t\t\tm.getSem(addrs).Unlock()", New: "\t\treturn msiResponse{writeToL1: true}, func() {\n\t\t\tm.getSem(addrs).RUnlock()"},
 	},
